@@ -83,3 +83,24 @@ fn test_randrange() {
     assert_snapshot!(render!(in env, r"{% set RAND_SEED = 42 %}{{ randrange(10) }}|{{ randrange(10) }}"), @"0|6");
     assert_snapshot!(render!(in env, r"{% set RAND_SEED = 42 %}{{ randrange(-50, 50) }}"), @"-50");
 }
+
+#[test]
+#[cfg(feature = "rand")]
+fn test_rand_extremes() {
+    use minijinja_contrib::globals::{lipsum, randrange};
+
+    let mut env = Environment::new();
+    env.add_function("randrange", randrange);
+    env.add_function("lipsum", lipsum);
+
+    // the distance between the bounds does not fit into an i64
+    let rv = render!(in env, r"{% set RAND_SEED = 42 %}{{ randrange(-9223372036854775808, 9223372036854775807) }}");
+    assert!(rv.parse::<i64>().is_ok());
+    let rv = render!(in env, r"{% set RAND_SEED = 42 %}{{ randrange(-9223372036854775808) }}");
+    assert!(rv.parse::<i64>().is_ok());
+    assert!(env
+        .render_str("{{ lipsum(9223372036854775806) }}", ())
+        .is_err());
+    assert!(env.render_str("{{ lipsum(2, max=100000) }}", ()).is_err());
+    assert!(env.render_str("{{ lipsum(2, min=1, max=3) }}", ()).is_ok());
+}
